@@ -12,11 +12,12 @@
   Helper lemmas: `PdsVerif/Lemmas/Si{Basic,Acc,Chunk,Full}.lean`.
 -/
 import PdsVerif.Lemmas.SiFull
-import Mathlib.Algebra.Ring.MinimalAxioms
+import PdsVerif.Lemmas.SiGInt
 set_option linter.unusedSectionVars false
 set_option linter.unusedVariables false
 namespace PdsVerif.C03
 open PdsVerif.Model.Si PdsVerif.Seg PdsVerif.SiBasic PdsVerif.SiAcc PdsVerif.SiChunk PdsVerif.SiFull
+open PdsVerif.SiGInt
 
 variable {α : Type} [CommRing α]
 
@@ -229,25 +230,6 @@ theorem si_stream_emitted_le (c : Cfg) (B : Bank α) (w : WF c B) (N : Nat) :
     emitted c N ≤ (N + c.S / 2) / c.S := (finalize_arith c B w N).1
 
 /-! ### the ring the driver runs is a commutative ring, so every theorem above applies to it -/
-
-theorem GInt.ext' {a b : GInt} (h1 : a.re = b.re) (h2 : a.im = b.im) : a = b := by
-  cases a; cases b; simp_all
-
-theorem GInt.add_def (a b : GInt) : a + b = ⟨a.re + b.re, a.im + b.im⟩ := rfl
-theorem GInt.mul_def (a b : GInt) : a * b = ⟨a.re * b.re - a.im * b.im, a.re * b.im + a.im * b.re⟩ := rfl
-theorem GInt.neg_def (a : GInt) : -a = ⟨-a.re, -a.im⟩ := rfl
-theorem GInt.zero_def : (0 : GInt) = ⟨0, 0⟩ := rfl
-theorem GInt.one_def : (1 : GInt) = ⟨1, 0⟩ := rfl
-
-instance instCommRingGInt : CommRing GInt :=
-  CommRing.ofMinimalAxioms
-    (by intro a b c; apply GInt.ext' <;> simp only [GInt.add_def] <;> ring)
-    (by intro a; apply GInt.ext' <;> simp [GInt.add_def, GInt.zero_def])
-    (by intro a; apply GInt.ext' <;> simp [GInt.add_def, GInt.neg_def, GInt.zero_def])
-    (by intro a b c; apply GInt.ext' <;> simp only [GInt.mul_def] <;> ring)
-    (by intro a b; apply GInt.ext' <;> simp only [GInt.mul_def] <;> ring)
-    (by intro a; apply GInt.ext' <;> simp [GInt.mul_def, GInt.one_def])
-    (by intro a b c; apply GInt.ext' <;> simp only [GInt.mul_def, GInt.add_def] <;> ring)
 
 /-- the instantiation the driver executes (its own `+`, `*`, `0` on Gaussian integers) -/
 theorem si_full_spec_gaussian (c : Cfg) (B : Bank GInt) (w : WF c B) (st : St GInt) (dt : DType)
